@@ -31,6 +31,8 @@ struct FakeNode {
     listening: Arc<AtomicBool>,
     stop: Arc<AtomicBool>,
     listener: Arc<Mutex<Option<TcpListener>>>,
+    /// the error code of "app_error" replies (any error REPLY is a reply, whatever its code says about retrying)
+    app_code: Arc<AtomicU64>,
     /// while "refused": a socket bound to the port but not listening, so that connects are refused AND nobody else
     /// (another shard's node, an ephemeral source port) can take the port in the meantime
     holder: Arc<Mutex<Option<PortHolder>>>,
@@ -84,6 +86,7 @@ impl FakeNode {
             listening: Arc::new(AtomicBool::new(true)),
             stop: Arc::new(AtomicBool::new(false)),
             listener: Arc::new(Mutex::new(Some(l))),
+            app_code: Arc::new(AtomicU64::new(ErrorCode::ApplicationErrorBase as u64)),
             holder: Arc::new(Mutex::new(None)),
         });
         let n = node.clone();
@@ -126,7 +129,9 @@ impl FakeNode {
                     return;
                 }
                 "app_error" => {
-                    let msg = Message::builder().id(id).query_bytes(query.clone()).error_code(ErrorCode::ApplicationErrorBase).body_utf8("scripted application error").build().to_vec();
+                    let mut m = Message::builder().id(id).query_bytes(query.clone()).error_code(ErrorCode::ApplicationErrorBase).body_utf8("scripted application error").build();
+                    m.header.ec = self.app_code.load(Ordering::SeqCst) as u32;
+                    let msg = m.to_vec();
                     if s.write_all(&msg).is_err() {
                         return;
                     }
@@ -249,6 +254,9 @@ pub fn scripts(a: &Args) -> i32 {
         count += 1;
         let names: Vec<&str> = script.iter().map(|o| OUTCOMES[*o]).collect();
         let node = FakeNode::start();
+        // error replies rotate through every protocol-level code and two application codes
+        const CODES: [u32; 11] = [4096, 8, 9, 7, 6, 5, 4, 3, 2, 1, 5000];
+        node.app_code.store(CODES[(idx / shards) % CODES.len()] as u64, Ordering::SeqCst);
         let cfg = NodeConfig::new("127.0.0.1", node.port).unwrap().with_name("n1").unwrap().with_timeout(timeout).unwrap();
         let opts = FleetOptions { default_timeout: timeout, retry_policy: RetryPolicy { max_attempts: max, delay } };
         let fleet = if kind == "blocking" {
